@@ -3,16 +3,10 @@ import TaRs.Lemmas.Core.RelativeStrengthIndex
 import TaRs.Gen.RelativeStrengthIndex
 import TaRs.Lemmas.ExponentialMovingAverage
 import TaRs.Lemmas.Total.RelativeStrengthIndex
+import TaRs.Lemmas.Bar.RelativeStrengthIndex
 namespace TaRs.Gen.RelativeStrengthIndex
 open TaRs TaRs.Rs
 variable {F : Type} [Scalar F]
-
-/-- wiring of the bar path: WHICH field of the bar `next(&bar)` reads (a value-level fact, hence
-    here and not among the value-agnostic totality lemmas) -/
-theorem nextBar_eq (s : RelativeStrengthIndex F) (b : Bar F) : s.nextBar b = s.next b.close := by
-  unfold nextBar
-  try simp only [gen_helper]
-  cases h : s.next b.close <;> simp [h]
 
 /-- the value fed to the "up" EMA: `0.1` on the first input, then `x − prev` when `x > prev`
     (`Scalar.lt prev x`), else `0.0` (this includes `x = prev` and every NaN comparison) -/
